@@ -17,6 +17,7 @@ violation):
 from __future__ import annotations
 
 import ast
+import copy
 
 from vc.pyvc import source
 from vc.fstc import fst as F
@@ -29,6 +30,16 @@ class Outside(Exception):
 
 IDENTITY_CALLS = {"to_unicode", "str", "cls", "vText", "from_unicode"}
 IDENTITY_METHODS = {"encode", "decode"}
+
+
+class _SubstConst(ast.NodeTransformer):
+    def __init__(self, consts):
+        self.consts = consts
+
+    def visit_Name(self, n):
+        if n.id in self.consts and isinstance(n.ctx, ast.Load):
+            return ast.copy_location(ast.Constant(self.consts[n.id]), n)
+        return n
 
 
 class Extractor:
@@ -86,12 +97,34 @@ class Extractor:
             if isinstance(st, ast.Expr) and isinstance(st.value, ast.Constant):
                 continue
             if isinstance(st, ast.Assign) and len(st.targets) == 1 and isinstance(st.targets[0], ast.Name):
+                tbl = self.const_table(st.value, env) if isinstance(st.value, (ast.IfExp, ast.Tuple, ast.List, ast.Name)) and not (isinstance(st.value, ast.Name) and st.value.id in env) else None
+                if tbl is not None:
+                    env[("table", st.targets[0].id)] = tbl
+                    continue
                 env[st.targets[0].id] = self.expr(st.value, env)
                 continue
             if isinstance(st, ast.Return):
                 if st.value is None:
                     raise Outside("bare return")
                 return self.expr(st.value, env)
+            if isinstance(st, ast.For) and not st.orelse:
+                # `for a, b in TABLE: body` over a constant table of string tuples (module-level literal, possibly chosen by an
+                # isinstance(x, str) conditional): unrolled with the loop variables bound to the constants
+                table = self.const_table(st.iter, env)
+                names = [t.id for t in st.target.elts] if isinstance(st.target, ast.Tuple) and all(isinstance(t, ast.Name) for t in st.target.elts) \
+                    else ([st.target.id] if isinstance(st.target, ast.Name) else None)
+                if table is None or names is None:
+                    raise Outside(f"loop outside fragment: for {ast.unparse(st.target)} in {ast.unparse(st.iter)[:40]}")
+                for row in table:
+                    row = row if isinstance(row, tuple) else (row,)
+                    if len(row) != len(names):
+                        raise Outside("loop target does not match the table rows")
+                    consts = dict(zip(names, row))
+                    for inner in st.body:
+                        if not (isinstance(inner, ast.Assign) and len(inner.targets) == 1 and isinstance(inner.targets[0], ast.Name)):
+                            raise Outside("loop body is not a sequence of simple assignments")
+                        env[inner.targets[0].id] = self.expr(_SubstConst(consts).visit(copy.deepcopy(inner.value)), env)
+                continue
             if isinstance(st, ast.If):
                 kind = self.test_kind(st.test, param)
                 if kind is None:
@@ -100,7 +133,7 @@ class Extractor:
                         kind = ("cond",) + cond
                 if kind == "is_str":
                     return self.block(st.body + stmts[i + 1:], env, param)
-                if kind == "is_bytes":
+                if kind == "is_bytes" or kind == "not_text":
                     return self.block(st.orelse + stmts[i + 1:], env, param)
                 if kind and kind[0] in ("search", "cond"):
                     if kind[0] == "search":
@@ -125,6 +158,29 @@ class Extractor:
             raise Outside(f"statement outside fragment: {type(st).__name__} (line {st.lineno})")
         return None
 
+    def not_a_string_class(self, name):
+        """a class defined in the repository's prop / parser modules none of whose bases (transitively) is str or bytes"""
+        from vc.pyvc import source as _src
+        seen, todo = set(), [name]
+        found = False
+        while todo:
+            c = todo.pop()
+            if c in ("str", "bytes"):
+                return False
+            if c in seen:
+                continue
+            seen.add(c)
+            for mn in ("prop", "parser", "caselessdict"):
+                m = _src.module(mn)
+                if c in m.classes:
+                    found = found or c == name
+                    todo += m.bases(c)
+                    break
+            else:
+                if c not in ("object", "TimeBase", "list", "dict", "OrderedDict", "CaselessDict", "int", "float", "tuple"):
+                    return False
+        return found
+
     def test_kind(self, test, param):
         if isinstance(test, ast.Call) and isinstance(test.func, ast.Name) and test.func.id == "isinstance" and len(test.args) == 2:
             t = test.args[1]
@@ -132,6 +188,9 @@ class Extractor:
                 return "is_str"
             if isinstance(t, ast.Name) and t.id == "bytes":
                 return "is_bytes"
+            # isinstance(x, C) for a class C of the repository that is not a str / bytes subclass: false on text input
+            if isinstance(t, ast.Name) and self.not_a_string_class(t.id):
+                return "not_text"
         if (isinstance(test, ast.Call) and isinstance(test.func, ast.Attribute) and test.func.attr == "search"
                 and isinstance(test.func.value, ast.Name) and len(test.args) == 1 and isinstance(test.args[0], ast.Name)):
             return ("search", test.func.value.id, test.args[0].id)
@@ -199,6 +258,29 @@ class Extractor:
             return go(test)
         except NotImplementedError:
             return None
+
+    def const_table(self, node, env):
+        """a constant tuple / list of string tuples: a literal, a module-level name bound to one, a local name assigned from one, or
+        `A if isinstance(x, str) else B` (text input: A)"""
+        if isinstance(node, ast.IfExp):
+            k = self.test_kind(node.test, None)
+            if k == "is_str":
+                return self.const_table(node.body, env)
+            if k in ("is_bytes", "not_text"):
+                return self.const_table(node.orelse, env)
+            return None
+        if isinstance(node, ast.Name):
+            if ("table", node.id) in env:
+                return env[("table", node.id)]
+            val = self.mod.assigns.get(node.id)
+            return None if val is None else self.const_table(val, env)
+        try:
+            v = ast.literal_eval(node)
+        except Exception:  # noqa
+            return None
+        if isinstance(v, (tuple, list)) and all(isinstance(r, str) or (isinstance(r, tuple) and all(isinstance(x, str) for x in r)) for r in v):
+            return list(v)
+        return None
 
     def const(self, node):
         if isinstance(node, ast.Constant) and isinstance(node.value, (str, bytes)):
